@@ -46,7 +46,7 @@ func families() []family {
 		{"footer-num", map[string]int{"quick": 2, "thorough": 2}, enumFooterNum},
 		{"footer-mut", map[string]int{"quick": 4, "thorough": 16}, enumFooterMut},
 		{"toc-misc", map[string]int{"quick": 2, "thorough": 2}, enumTOCMisc},
-		{"toc-num", map[string]int{"quick": 12, "thorough": 16}, enumTOCNum},
+		{"toc-num", map[string]int{"quick": 8, "thorough": 16}, enumTOCNum},
 		{"toc-struct", map[string]int{"quick": 16, "thorough": 64}, enumTOCStruct},
 		{"mut-gz", map[string]int{"quick": 6, "thorough": 8}, func(t string, y func(func() *Input)) { enumMut(kindGz, t, y) }},
 		{"mut-zstd", map[string]int{"quick": 6, "thorough": 8}, func(t string, y func(func() *Input)) { enumMut(kindZstd, t, y) }},
@@ -171,6 +171,20 @@ func enumFooterXlen(tier string, yield func(func() *Input)) {
 	}
 }
 
+// predictZstdFooter: the harness' reading of a 40-byte zstd:chunked footer (from the format description): a compressed
+// TOC length between the 4 GiB address-space limit and Go's maximal allocation size can only end in an out-of-memory
+// death if the reader allocates what the footer says. Only used to avoid re-running an already confirmed process death.
+func predictZstdFooter(f40 []byte) map[string]string {
+	if len(f40) != 40 || !bytes.Equal(f40[32:], []byte{0x47, 0x6e, 0x55, 0x6c, 0x49, 0x6e, 0x55, 0x78}) {
+		return nil
+	}
+	off, clen := binary.LittleEndian.Uint64(f40[0:]), binary.LittleEndian.Uint64(f40[8:])
+	if off < 1<<63 && clen >= 1<<32 && clen < 1<<47 {
+		return map[string]string{"estargz.Open[daemon]": "toc-size-over-memory-limit", "db.NewReader": "toc-size-over-memory-limit"}
+	}
+	return nil
+}
+
 func enumFooterNum(tier string, yield func(func() *Input)) {
 	for _, kind := range []string{kindGz, kindLegacy} {
 		body, _, _, tocOff, tocEnd := validParts(kind)
@@ -215,7 +229,9 @@ func enumFooterNum(tier string, yield func(func() *Input)) {
 				to, te = tocOff, tocEnd
 			}
 			b = append(b, skippable(zstdFooter40(off, cl, ul, typ))...)
-			return blobInput(fmt.Sprintf("zstd footer offset=%d compressedLength=%d uncompressedLength=%d type=%d body=%v (blob %d bytes)", off, cl, ul, typ, withBody, len(b)), b, nil, to, te, false)
+			in := blobInput(fmt.Sprintf("zstd footer offset=%d compressedLength=%d uncompressedLength=%d type=%d body=%v (blob %d bytes)", off, cl, ul, typ, withBody, len(b)), b, nil, to, te, false)
+			in.Pred = predictZstdFooter(b[len(b)-40:])
+			return in
 		})
 	}
 	for _, withBody := range []bool{true, false} {
@@ -273,7 +289,11 @@ func enumFooterMut(tier string, yield func(func() *Input)) {
 						f := append([]byte{}, footer...)
 						f[pos] = v
 						b = append(b, f...)
-						return blobInput(fmt.Sprintf("%s footer byte %d: 0x%02x->0x%02x body=%v footer=%s", kind, pos, footer[pos], v, withBody, hexs(f)), b, ext, to, te, !withBody)
+						in := blobInput(fmt.Sprintf("%s footer byte %d: 0x%02x->0x%02x body=%v footer=%s", kind, pos, footer[pos], v, withBody, hexs(f)), b, ext, to, te, !withBody)
+						if kind == kindZstd {
+							in.Pred = predictZstdFooter(f[8:])
+						}
+						return in
 					})
 				}
 			}
@@ -555,6 +575,9 @@ func enumTOCNum(tier string, yield func(func() *Input)) {
 				}
 			}
 			for a := 0; a < n; a++ {
+				if tier != "thorough" && kind != kindGz {
+					break // quick: two fields at a time in the gzip container only (the other containers differ in the payload codec only)
+				}
 				for b := a + 1; b < n; b++ {
 					for _, va := range alpha {
 						for _, vb := range alpha {
